@@ -334,7 +334,13 @@ Example eth_roundtrip_examples :
   match dec_eth frame with Ok t => wire t = frame | _ => False end.
 Proof. vm_compute. reflexivity. Qed.
 
-Lemma priority_tag_lost :
-  let frame := zeros 12 ++ be16 33024 ++ be16 (pack_tci 5 0 0) ++ be16 35020 ++ [x01; x02] in
+Lemma zero_tag_lost :
+  let frame := zeros 12 ++ be16 33024 ++ be16 0 ++ be16 35020 ++ [x01; x02] in
   exists t, dec_eth frame = Ok t /\ wire t <> frame.
 Proof. eexists. split; [vm_compute; reflexivity|]. vm_compute. discriminate. Qed.
+
+(* a priority tag (VLAN id 0, priority set) survives the round trip *)
+Example priority_tag_kept :
+  let frame := zeros 12 ++ be16 33024 ++ be16 (pack_tci 5 0 0) ++ be16 35020 ++ [x01; x02] in
+  match dec_eth frame with Ok t => wire t = frame | _ => False end.
+Proof. vm_compute. reflexivity. Qed.
